@@ -29,6 +29,6 @@ echo "== existing tests of module $MOD with the change"
 (cd $W/repo/$MOD && timeout 1200 go test -vet=off -count=1 ./... 2>&1 | grep -v '^ok\|no test files' | tail -5; echo "exit=$?")
 echo "== check $P against the changed tree"
 cd /verif
-VERIF_REPO=$W/repo ./bin/verif check $P --budget $BUDGET 2>&1 | grep -a -v '^\s' | cut -c1-300 | tail -12
+VERIF_REPO=$W/repo ./bin/verif check $P --budget $BUDGET 2>&1 | grep -a -v '^\s' | cut -c1-300 | tail -60
 git -C /verif checkout -- evidence/$P.json 2>/dev/null
 rm -rf $W
